@@ -2706,6 +2706,7 @@ EXPECTED_ORDER = {'rk': 4, 'expl_euler': 1}
 @register
 class C03(Check):
     pid = "C03"
+    uses_generated = True
     slices = ["shooting-order", "collocation-order", "builtin-integrators", "sys_simulator"]
 
     def explanation(self):
